@@ -196,7 +196,8 @@ def run(ctx):
             if "transform_again" in dig and dig["transform_again"] != dig["transform"]:
                 ctx.fail("seeded_transform:not_repeatable:%s" % cfg, "two transform calls on the same data differ (threads %d)" % t, dict(config=cfg, threads=t, seed=seed))
         # within a process: n_jobs and warm/fresh must not matter
-        for a_, b_ in (("exact_spectral_jobs-1", "exact_spectral_jobs4_warm"), ("nndescent_jobs1", "nndescent_jobs-1")):
+        for a_, b_ in (("exact_spectral_jobs-1", "exact_spectral_jobs4_warm"), ("nndescent_jobs1", "nndescent_jobs-1"),
+                       ) + tuple(("degenerate_component_affinities_rs%d" % s_, "degenerate_component_affinities_rs%d_again" % s_) for s_ in (42, 1, 2, 3)):
             if a_ in r and b_ in r:
                 for key in ("graph", "embedding", "transform"):
                     if r[a_].get(key) != r[b_].get(key):
